@@ -242,7 +242,30 @@ def gen_addition(rng, H):
     return {"call": "add_node_to_edge", "edge": i, "node": x}, lambda: H.add_node_to_edge(i, x)
 
 
-def check_addition(H, desc, thunk):
+def exec_addition(H, desc):
+    """perform the addition described by `desc` (replayable form of the thunk)"""
+    c = desc["call"]
+    if c in ("add_edge", "add_simplex"):
+        f = getattr(H, c)
+        m = desc["members"]
+        if isinstance(H, xgi.DiHypergraph):
+            m = (m[0], m[1])
+        return f(m) if desc.get("idx") is None else f(m, idx=desc["idx"])
+    if c in ("add_edges_from", "add_simplices_from"):
+        eb = desc["ebunch"]
+        if isinstance(eb, list):
+            eb = [tuple(x) if isinstance(x, (list, tuple)) and desc["fmt"] != 1 else x for x in eb]
+            if isinstance(H, xgi.DiHypergraph) and desc["fmt"] == 1:
+                eb = [(x[0], x[1]) for x in eb]
+            if isinstance(H, xgi.DiHypergraph) and desc["fmt"] == 2:
+                eb = [((x[0][0], x[0][1]), x[1]) for x in eb]
+        return getattr(H, c)(eb)
+    if c == "add_node_to_edge":
+        return H.add_node_to_edge(desc["edge"], desc["node"])
+    raise AssertionError(c)
+
+
+def check_addition(H, desc, thunk=None):
     """perform one addition; returns list of (failure_class, detail)"""
     order0, tab0 = edge_table(H)
     # a simplex that is already present (by member set) is a documented silent no-op, whatever the id says
@@ -251,7 +274,7 @@ def check_addition(H, desc, thunk):
         warnings.simplefilter("always")
         exc = None
         try:
-            thunk()
+            exec_addition(H, desc)
         except Exception as e:  # noqa
             exc = e
     warned = any(issubclass(x.category, UserWarning) for x in w)
@@ -282,11 +305,12 @@ def run_provenance(ctx, n_cases):
     for ci in range(n_cases):
         name = names[ci % len(names)] if ci < 2 * len(names) else rng.choice(names)
         nodes, edges = base_spec(rng)
-        state = rng.getstate()
+        case_seed = rng.randint(0, 2**31)
+        import random as _random
         try:
             with warnings.catch_warnings():
                 warnings.simplefilter("ignore")
-                H = PROVENANCES[name](rng, nodes, edges)
+                H = PROVENANCES[name](_random.Random(case_seed), nodes, edges)
         except Exception as e:  # noqa
             ctx.stats["provenance_failed:" + name] += 1
             continue
@@ -306,9 +330,26 @@ def run_provenance(ctx, n_cases):
             if fails:
                 cls, detail = fails[0]
                 ctx.violation(f"{type(H).__name__}.{desc['call']}", cls,
-                              {"provenance": name, "base": {"nodes": nodes, "edges": edges}, "additions": adds}, detail=f"[{name}] {detail}")
+                              {"provenance": name, "case_seed": case_seed, "base": {"nodes": nodes, "edges": edges}, "additions": adds}, detail=f"[{name}] {detail}")
                 break
         order, tab = edge_table(H)
         if len(order) >= 2:
             ctx.nontrivial.add((name, tuple(order), repr(sorted(tab.items()))).__hash__())
         ctx.sample({"provenance": name, "base_edges": edges, "additions": adds[:3]}, cap=3)
+
+
+def replay_provenance(ctx, case):
+    """re-execute a provenance case on the current tree; returns list of failures"""
+    import random as _random
+    nodes = case["base"]["nodes"]
+    edges = [(e, ms) for e, ms in case["base"]["edges"]]
+    with warnings.catch_warnings():
+        warnings.simplefilter("ignore")
+        H = PROVENANCES[case["provenance"]](_random.Random(case.get("case_seed", 0)), nodes, edges)
+    if getattr(H, "is_frozen", False):
+        H = H.copy()
+    for desc in case["additions"]:
+        fails = check_addition(H, desc)
+        if fails:
+            return fails
+    return []
